@@ -613,7 +613,7 @@ func (c14) Run(ctx *Ctx, ci interface{}) (o Outcome) {
 		// out and then fold - but the answer must be one of them
 		okV, okI := map[string]bool{}, map[string]bool{}
 		for mode := 0; mode < 3; mode++ { // 2: no folding at all (the documentation of the variable sites does not mention case)
-			for both := 0; both < 2; both++ {
+			for both := 0; both < 3; both++ { // left out: nothing but gaps / N and X / the "any" character of the alphabet only
 				v := 0
 				inf := []int{}
 				for site := 0; site < L; site++ {
@@ -631,7 +631,7 @@ func (c14) Run(ctx *Ctx, ci interface{}) (o Outcome) {
 						if mode == 2 {
 							up = ch
 						}
-						if t == '-' || (both == 1 && (t == 'N' || t == 'X')) {
+						if t == '-' || (both == 1 && (t == 'N' || t == 'X')) || (both == 2 && t == allc) {
 							continue
 						}
 						cnt[up]++
@@ -659,7 +659,7 @@ func (c14) Run(ctx *Ctx, ci interface{}) (o Outcome) {
 		// the reported list must be the list of one reading
 		matched := false
 		for mode := 0; mode < 3 && !matched; mode++ {
-			for both := 0; both < 2 && !matched; both++ {
+			for both := 0; both < 3 && !matched; both++ {
 				for _, skip := range []byte{allc, 0} {
 					lst := []int{}
 					for site := 0; site < L; site++ {
